@@ -14,11 +14,12 @@ TECHNIQUE = 'exhaustive enumeration of argument tuples / input row sequences per
 ASSUMPTIONS = ['corners of DESIGN 2.4 not generated: non-exact integer division, % on negative operands, Element out of range, Split with an empty separator, Least/Greatest with one argument, nested lists',
                'ties: any admissible selection accepted for ArgMin/ArgMax(K); element order of List/Set/++= free']
 
-INTS = [-2, -1, 0, 1, 2, 3]
+INTS = [-2, -1, 0, 1, 2, 3, 10]
 FLOATS = [0.5, 2.0]
+FLISTS = [[0.5, 2, 10], [2.5, -1]]
 STRS = ['', 'a', 'ab', 'a,b']
-ILISTS = [[], [1], [2, 1], [3, 1, 2], [1, 1], [2, 2, 1]]
-SLISTS = [[], ['a'], ['b', 'a'], ['ab', '', 'a']]
+ILISTS = [[], [1], [2, 1], [3, 1, 2], [1, 1], [2, 2, 1], [10, 2], [-1, -2], [2, 10, -1]]
+SLISTS = [[], ['a'], ['b', 'a'], ['ab', '', 'a'], ['b', 'B', '!a']]
 
 
 def lit(v):
@@ -55,7 +56,7 @@ def scalar_builtins():
   B['Element'] = ('Element({0}, {1})', [(l, i) for l in ILISTS + SLISTS for i in range(len(l))], lambda l, i: l[i])
   B['Subscript'] = ('{0}[{1}]', [(l, i) for l in ILISTS + SLISTS for i in range(len(l))], lambda l, i: l[i])
   B['in'] = ('({0} in {1})', [(a, l) for l in ILISTS for a in (0, 1, 2, 3)] + [(a, l) for l in SLISTS for a in STRS], lambda a, l: a in l)
-  B['Sort'] = ('Sort({0})', [(l,) for l in ILISTS + SLISTS], lambda l: sorted(l))
+  B['Sort'] = ('Sort({0})', [(l,) for l in ILISTS + SLISTS + FLISTS], lambda l: sorted(l))
   B['ArrayConcat'] = ('ArrayConcat({0}, {1})', list(itertools.product(ILISTS, ILISTS)) + list(itertools.product(SLISTS, SLISTS)), lambda a, b: a + b)
   B['concat'] = ('({0} ++ {1})', list(itertools.product(STRS, STRS)), lambda a, b: a + b)
   B['concat3'] = ('({0} ++ {1} ++ {2})', list(itertools.product(STRS[:3], STRS, STRS[:3])), lambda a, b, c: a + b + c)
@@ -65,8 +66,8 @@ def scalar_builtins():
   B['ToInt64'] = ('ToInt64({0})', [(a,) for a in INTS + FLOATS + ['12', '-3', '0']], lambda a: int(a))
   B['Least'] = ('Least({0}, {1})', list(itertools.product(nums, nums)), lambda a, b: min(a, b))
   B['Greatest'] = ('Greatest({0}, {1})', list(itertools.product(nums, nums)), lambda a, b: max(a, b))
-  B['Least3'] = ('Least({0}, {1}, {2})', list(itertools.product(INTS[1:5], repeat=3)), lambda a, b, c: min(a, b, c))
-  B['Greatest3'] = ('Greatest({0}, {1}, {2})', list(itertools.product(INTS[1:5], repeat=3)), lambda a, b, c: max(a, b, c))
+  B['Least3'] = ('Least({0}, {1}, {2})', list(itertools.product(INTS[1:5] + [10], repeat=3)), lambda a, b, c: min(a, b, c))
+  B['Greatest3'] = ('Greatest({0}, {1}, {2})', list(itertools.product(INTS[1:5] + [10], repeat=3)), lambda a, b, c: max(a, b, c))
   B['LeastS'] = ('Least({0}, {1})', list(itertools.product(STRS, STRS)), lambda a, b: min(a, b))
   B['if'] = ('(if {0} < {1} then {0} else {1})', list(itertools.product(INTS, INTS)), lambda a, b: a if a < b else b)
   B['SizeRange'] = ('Size(Range({0}))', [(n,) for n in (0, 1, 2, 3)], lambda n: n)
